@@ -187,6 +187,7 @@ fn judge(scn: &SumScenario, acc: &mut Acc) -> Option<Violation> {
         let mut ctx = Context::default();
         let mut gc = GuardCtx::default();
         let al = build_alphabet(&mut ctx, scn.alphabet_seed);
+        assert_eq!(al.bools.len(), N_BOOLS, "HARNESS: alphabet size changed");
         // all valuations of the symbols
         let total_bits: u32 = al.symbols.iter().map(|s| s.1).sum();
         let n_val = 1usize << total_bits;
@@ -414,8 +415,25 @@ fn judge(scn: &SumScenario, acc: &mut Acc) -> Option<Violation> {
     }
 }
 
+/// number of Boolean alphabet entries (4 symbols, 2 comparisons, 2 literals, 10 combinations)
+const N_BOOLS: usize = 18;
+
 fn gen_ops(rng: &mut Rng, n: usize) -> Vec<VOp> {
     let mut ops = vec![];
+    if rng.chance(1, 2) {
+        // a chain ite(c1, v1, ite(c2, v2, ... vn)) over 2..3 distinct values that recur in a random
+        // order (e.g. A,B,B,A), then coalesce: entries with equal values in every relative order
+        let len = rng.range(3, 5) as usize;
+        let distinct = rng.range(2, 3) as usize;
+        let vals: Vec<usize> = (0..len).map(|_| N_BOOLS + rng.usize_below(distinct)).collect();
+        ops.push(VOp::New(vals[len - 1]));
+        for i in (0..len - 1).rev() {
+            ops.push(VOp::New(vals[i]));
+            ops.push(VOp::New(i % 4)); // condition p_i
+            ops.push(VOp::Ite(2, 1, 0));
+        }
+        ops.push(VOp::Coalesce(0));
+    }
     for _ in 0..3 {
         ops.push(VOp::New(rng.usize_below(64)));
     }
